@@ -7,6 +7,7 @@ import Driver.Locks
 import Driver.Reader
 import Driver.Conc
 import Driver.Expr
+import Driver.Codec
 /-!
 The model driver: one request per line on stdin, one reply per line on stdout.
 `<family> <op> <args…>`; payload strings are hex encoded.  Unknown or malformed requests answer
@@ -25,6 +26,7 @@ def dispatch (line : String) : String :=
   | "queue" :: rest => Driver.Conc.handleQueue rest
   | "route" :: rest => Driver.Conc.handleRoute rest
   | "expr" :: rest => Driver.Expr.handle rest
+  | "codec" :: rest => Driver.Codec.handle rest
   | ["ping"] => "pong"
   | _ => "bad-op"
 
